@@ -75,4 +75,37 @@ theorem C07_enterleave_seed_legacy_writes :
     ∃ (h : Heap ELE) (next seed : Ref), seed < next ∧ (seedEditLegacy h next seed).1 seed ≠ h seed :=
   ⟨fun _ => ⟨1, some "x", 3⟩, 1, 0, by decide, by decide⟩
 
+/-- **C07_enterleave_pull_frame.** `PullEnterLeaveEvents(ctx, opts...)` up to its first message, for every read mask
+(none included) and whatever else the option list holds: the seed `Value.Pull` produces (the stored event itself
+without a mask, a filtered clone with one) followed by the adapter's edit writes no cell that existed — the stored
+event in particular — and sends a new cell: the (filtered) event without occupant and direction. -/
+theorem C07_enterleave_pull_frame (mask : Option EMask) (h : Heap ELE) (next stored : Ref) (hs : stored < next) :
+    (∀ r, r < next → (pullFirst mask h next stored).1 r = h r) ∧ (pullFirst mask h next stored).1 stored = h stored ∧
+    next ≤ (pullFirst mask h next stored).2 ∧
+    (pullFirst mask h next stored).1 (pullFirst mask h next stored).2 =
+      { (match mask with | none => h stored | some m => projELE m (h stored)) with direction := 0, occupant := none } := by
+  have hf : ∀ r, r < next → (pullFirst mask h next stored).1 r = h r := by
+    intro r hr
+    have h1 : r ≠ next := Nat.ne_of_lt hr
+    have h2 : r ≠ next + 1 := Nat.ne_of_lt (Nat.lt_succ_of_lt hr)
+    cases mask <;> simp [pullFirst, pullSeedRef, seedEdit, Heap.set, h1, h2]
+  refine ⟨hf, hf stored hs, ?_, ?_⟩
+  · cases mask
+    · exact Nat.le_refl _
+    · exact Nat.le_succ _
+  · cases mask <;> simp [pullFirst, pullSeedRef, seedEdit, Heap.set]
+
+/-- **C07_enterleave_pull_conditional_clone_writes.** The seeded shape (C07-11): with a non-empty option list that holds no
+read mask (`WithBackpressure`, `WithUpdatesOnly(false)`, `WithReadMask(nil)` — what the gRPC server passes for a request
+without read_mask) the conditional clone is skipped and the edit lands on the stored event. -/
+theorem C07_enterleave_pull_conditional_clone_writes :
+    ∃ (h : Heap ELE) (next stored : Ref), stored < next ∧ (pullFirstIfNoOpts false none h next stored).1 stored ≠ h stored :=
+  ⟨fun _ => ⟨1, some "x", 3⟩, 1, 0, by decide, by decide⟩
+
+/-- with a read mask the shortcut is harmless (that is what makes it look right): the seed is a clone already -/
+example : ∀ m : EMask, (pullFirstIfNoOpts false (some m) (fun _ => ⟨1, some "x", 3⟩) 1 0).1 0 = ⟨1, some "x", 3⟩ := by
+  intro m
+  obtain ⟨d, o, t⟩ := m
+  cases d <;> cases o <;> cases t <;> decide
+
 end ScVerif.C07.Rim
